@@ -371,17 +371,17 @@ func (c *Ctx) Finish() {
 		distinct = c.distinctOverride
 	}
 	cov := map[string]interface{}{
-		"evaluations":         c.Evals,
-		"distinct_nontrivial": distinct,
-		"rule":                c.Rule,
-		"samples":             c.Samples,
-		"faults_fired":        c.Faults,
-		"reach_probes":        c.Probes,
-		"swarm_dimensions":    c.Dims,
-		"simulated_seconds":   float64(c.SimNs) / 1e9,
-		"runs_per_hour":       float64(c.Evals) / wall * 3600,
-		"components":          c.Components,
-		"known_findings_seen": keys,
+		"evaluations":                        c.Evals,
+		"distinct_nontrivial":                distinct,
+		"rule":                               c.Rule,
+		"samples":                            c.Samples,
+		"faults_fired":                       c.Faults,
+		"reach_probes":                       c.Probes,
+		"swarm_dimensions":                   c.Dims,
+		"simulated_seconds":                  float64(c.SimNs) / 1e9,
+		"runs_per_hour":                      float64(c.Evals) / wall * 3600,
+		"components":                         c.Components,
+		"known_findings_seen":                keys,
 		"unreproduced_environment_artefacts": c.Unreproduced,
 		"determinism_reexecutions":           c.Rechecks,
 		"determinism_divergences":            c.Divergences,
